@@ -670,6 +670,8 @@ class Interp:
     def truth(self, v):
         if isinstance(v, bool):
             return v
+        if type(v).__name__ == "MaskedSel":
+            raise Unsupported("truth value of a masked selection")
         if v is None:
             return False
         if isinstance(v, SymTensor):
@@ -842,6 +844,12 @@ class Interp:
             if name in TM:
                 return TensorMethod(obj, name)
             raise Unsupported(f"tensor attribute {name}")
+        if type(obj).__name__ == "MaskedSel":
+            if name in ("any", "all"):
+                return getattr(obj, name)
+            if name in TM:
+                return lambda *a, **k: obj.map(lambda t: TM[name](t, *a, **k))
+            raise Unsupported(f"masked selection attribute {name}")
         if isinstance(obj, ops.MaxResult):
             if name == "values":
                 return obj[0]
